@@ -429,6 +429,39 @@ def judge_odd_config_name(rec, rnd, tmp, k, log):
     shutil.rmtree(root, ignore_errors=True)
 
 
+def judge_symlinked_config_folder(rec, rnd, tmp, k, log):
+    """The budget's config folder is a symbolic link to a folder kept elsewhere (shared between years, or in a synced drive): the report goes into THIS
+    budget's output folder; nothing is created next to the link's target."""
+    root = os.path.join(tmp, 'sym%d' % k)
+    shared = os.path.join(root, 'shared', 'tally-config')
+    bud = os.path.join(root, 'budgets', '2025')
+    os.makedirs(shared)
+    os.makedirs(os.path.join(bud, 'data'))
+    with open(os.path.join(shared, 'settings.yaml'), 'w') as f:
+        f.write('year: 2025\nmerchants_file: config/merchants.rules\ndata_sources:\n  - name: Card\n    file: data/card.csv\n    format: "{date:%Y-%m-%d},{description},{amount}"\n')
+    with open(os.path.join(shared, 'merchants.rules'), 'w') as f:
+        f.write('[Netflix]\nmatch: contains("NETFLIX")\ncategory: Subs\n')
+    with open(os.path.join(bud, 'data', 'card.csv'), 'w') as f:
+        f.write('Date,Description,Amount\n2025-01-03,NETFLIX.COM,15.99\n2025-01-09,CORNER CAFE,4.50\n')
+    os.symlink(os.path.join('..', '..', 'shared', 'tally-config'), os.path.join(bud, 'config'))
+    cfg = os.path.join(bud, 'config')
+    pool = [('up', ['up', cfg, '-q']), ('up', ['CWD:' + bud, 'up', '-q']), ('up', ['up', cfg, '--no-embedded-html', '-q']), ('up', ['ENV:TALLY_CONFIG=' + cfg, 'up', '--format', 'summary']),
+            ('explain', ['explain', cfg]), ('discover', ['discover', cfg, '--format', 'json'])]
+    for kind, args in rnd.sample(pool, 3):
+        before = snapshot(root)
+        p, effects = run_cmd(root, root, args, log)
+        after = snapshot(root)
+        rec.case()
+        rec.count('commands_run')
+        rec.count('symlinked_config_folder_commands')
+        case = {'kind': 'symlinked-config-folder', 'command': [a.replace(root, '<root>') for a in args], 'exit': p.returncode}
+        judge_readonly(rec, kind, args, before, after, effects, root, bud, case)
+        if kind == 'up' and '--format' not in args and p.returncode == 0 and not os.path.exists(os.path.join(bud, 'output', 'spending_summary.html')):
+            rec.violation('report-not-in-the-budgets-output-folder', f'tally {" ".join(case["command"][:3])}: exit 0 but no report in budgets/2025/output; new files: '
+                          f'{sorted(x for x in after if x not in before)}', case)
+    shutil.rmtree(root, ignore_errors=True)
+
+
 def judge_init_sectionless_rules(rec, rnd, tmp, k, log):
     """A budget with rules in the legacy CSV AND a merchants.rules the user wrote that holds no [section] (transforms, variables, notes): `tally init` creates
     what is missing and touches neither of the two."""
@@ -476,6 +509,7 @@ def run(rec, shard, nshards, t):
             judge_odd_config_name(rec, rnd, tmp, k, log)
         for k in range(max(1, (8 if t == 'quick' else 120) // nshards)):
             judge_init_sectionless_rules(rec, rnd, tmp, k, log)
+            judge_symlinked_config_folder(rec, rnd, tmp, k, log)
         if shard == 0:
             rec.sample({'example_sequence': ['up', 'discover --format json', 'init', 'up --migrate -q'], 'monitors': ['sha256 tree snapshot', 'audit-hook effect log']})
     finally:
@@ -494,6 +528,7 @@ def replay(rec, case):
             judge(rec, rnd, tmp, k, log, focus=k % 3 == 0)
             judge_odd_config_name(rec, rnd, tmp, k, log)
             judge_init_sectionless_rules(rec, rnd, tmp, k, log)
+            judge_symlinked_config_folder(rec, rnd, tmp, k, log)
     finally:
         shutil.rmtree(tmp, ignore_errors=True)
         if os.path.exists(log):
